@@ -262,9 +262,9 @@ def run():
     r = findings.Run("C15")
     quick = common.tier() == "quick"
     rnd = random.Random(common.seed())
-    shipped = sorted(glob.glob("/repo/examples/jsons-solc/*.json_solc")) + \
-        sorted(glob.glob("/repo/tests/files/**/*.json_solc", recursive=True)) + \
-        sorted(glob.glob("/repo/tests/files/**/*.json", recursive=True))
+    shipped = sorted(glob.glob(os.environ.get("GASOL_VERIF_REPO", "/repo") + "/examples/jsons-solc/*.json_solc")) + \
+        sorted(glob.glob(os.environ.get("GASOL_VERIF_REPO", "/repo") + "/tests/files/**/*.json_solc", recursive=True)) + \
+        sorted(glob.glob(os.environ.get("GASOL_VERIF_REPO", "/repo") + "/tests/files/**/*.json", recursive=True))
     if quick:
         shipped = shipped[:8] + shipped[-4:]
     n_doc, n_text, n_sp = (60, 100, 40) if quick else (600, 1000, 400)
